@@ -69,8 +69,9 @@ type tupleState struct {
 }
 
 type issSeen struct {
-	iss uint32
-	at  time.Time
+	iss    uint32
+	at     time.Time
+	ackSyn uint32 // the SYN-ACK's acknowledgement number (the SYN's sequence number + 1)
 }
 
 func cookieMode() bool { return os.Getenv("C03_COOKIE") == "1" }
@@ -201,7 +202,7 @@ func runPassive(sc Script) *evid.Failure {
 			})
 			if ok {
 				if !t.haveISS || t.iss != f.Pkt.Seq {
-					t.issAll = append(t.issAll, issSeen{f.Pkt.Seq, f.T})
+					t.issAll = append(t.issAll, issSeen{f.Pkt.Seq, f.T, f.Pkt.Ack})
 				}
 				wasFresh := !t.haveISS || !t.clean
 				t.iss, t.haveISS = f.Pkt.Seq, true
@@ -365,7 +366,9 @@ func runPassive(sc Script) *evid.Failure {
 					if r.seg.Ack == s.iss+1 {
 						ok = true
 					}
-					offs = append(offs, fmt.Sprintf("%d", int32(r.seg.Ack-(s.iss+1))))
+					// offset of the acknowledgement, and that offset minus the offset of the
+					// segment's own sequence number (the cookie is linear in the latter)
+					offs = append(offs, fmt.Sprintf("%d/%d", int32(r.seg.Ack-(s.iss+1)), int32((r.seg.Ack-(s.iss+1))-(r.seg.Seq-s.ackSyn))))
 				}
 			}
 		}
@@ -413,17 +416,21 @@ func runPassive(sc Script) *evid.Failure {
 				// Finding F11: the listener validates bare ACKs as SYN cookies (in
 				// normal mode too, once no half-open endpoint exists for the
 				// 4-tuple) and the cookie's MSS bits are not authenticated.
+				// The cookie is H0 + seq + ts<<24 + ((H1+mss) & 0xffffff) and validation
+				// looks at cookie-seq only: an ACK whose acknowledgement number AND
+				// sequence number are shifted by the same amount validates as well, give
+				// or take the 3 values of the MSS bits.
 				for _, o := range offs {
-					var d int32
-					fmt.Sscan(o, &d)
+					var d, rel int32
+					fmt.Sscanf(o, "%d/%d", &d, &rel)
 					for _, kk := range []int32{0, 1 << 24, 2 << 24} {
-						if d+kk >= -3 && d+kk <= 3 && d+kk != 0 {
+						if (d+kk >= -3 && d+kk <= 3 && d+kk != 0) || (d != 0 && rel+kk >= -3 && rel+kk <= 3) {
 							sig = "accept-without-valid-ack:cookie-mss-bits"
 						}
 					}
 				}
 			}
-			return evid.Failf(sig, "Accept returned a connection for peer port %d although no segment acknowledged exactly iss+1 (offsets of the ACKs sent relative to iss+1: %v)\n%s", port, offs, render(inj, frames))
+			return evid.Failf(sig, "Accept returned a connection for peer port %d although no segment acknowledged exactly iss+1 (offsets of the ACKs sent relative to iss+1 / the same minus the offset of the segment's sequence number: %v)\n%s", port, offs, render(inj, frames))
 		}
 		nontrivial = true
 	}
